@@ -2,6 +2,11 @@
 from lib import machine as mc
 from . import tok_common
 
+MANIFEST = {
+    "text": "Translation validation: the tokenizer's transition function (73 concrete states x exact character partition x guard valuations), its helper methods and the character-reference sub-tokenizer are extracted from the source and compared pointwise with a reference reviewed against the WHATWG tokenization section. Right level because the property is 'equals a table-driven algorithm': agreement of tables is decidable from the code, behaviour on strings is not sampled at all.",
+    "note": "Decides: code tables == reviewed tables (R01.1-R01.4). Trusted: the review of ref/html_tokenizer.json against the standard (from memory, no offline copy), rustc macro expansion, syn, BufferQueue/StrTendril/LocalName primitives, the sink. Not decided: tree construction, primitives' arithmetic.",
+    "technique": 'decision-tree flattening of the macro-expanded source + pointwise comparison with a reviewed reference table',
+}
 LEVEL = "translation_validation"
 EXPLANATION = """
 Translation validation of html5ever's tokenizer against a reviewed reference: the transition function of
